@@ -122,3 +122,33 @@ def register(M):
     M('C02_skipaspass', ['C02', 'C10'], 'doctest_example.py',
       "        passed = not failed and not skipped", "        passed = not failed",
       'skipped doctests also count as passed')
+
+    # ---- C03 ---------------------------------------------------------------
+    M('C03_swallow', ['C03'], 'checker.py',
+      "        # Reraise the error if the want message is formatted like an exception\n        raise\n",
+      "        # Reraise the error if the want message is formatted like an exception\n        return True\n",
+      "non-traceback want hides the exception (bare raise -> return True)")
+    M('C03_nowantguard', ['C03'], 'doctest_example.py',
+      "                    except Exception:\n                        if part.want:\n",
+      "                    except Exception:\n                        if part.want or True:\n",
+      'exception consults the want even when the part has none')
+    M('C03_ied_msg', ['C03'], 'checker.py',
+      "        exc_want1 = _strip_exception_details(exc_want)\n", "        exc_want1 = exc_want\n",
+      'IGNORE_EXCEPTION_DETAIL still compares the message of the want')
+    M('C03_dotted', ['C03'], 'checker.py',
+      "    i = msg.rfind('.', 0, end)\n    if i >= 0:\n        start = i + 1\n", "",
+      '_strip_exception_details keeps the dotted module path')
+    M('C03_breakafter', ['C03'], 'doctest_example.py',
+      "                            checker.check_exception(exc_got, want, runstate)\n",
+      "                            checker.check_exception(exc_got, want, runstate)\n                            raise exceptions.ExitTestException()\n",
+      'the doctest stops silently after an expected exception')
+    M('C03_ied_always', ['C03'], 'checker.py',
+      "    if not flag and runstate['IGNORE_EXCEPTION_DETAIL']:", "    if not flag:",
+      'exception detail always ignored')
+    M('C03_hdr', ['C03'], 'checker.py',
+      "        |   innermost\\ last\n", "",
+      "'Traceback (innermost last):' header no longer recognised")
+    M('C03_typeonly', ['C03'], 'checker.py',
+      "    flag = check_output(exc_got, exc_want, runstate)\n    # print('exc_want",
+      "    flag = check_output(exc_got, exc_want, runstate) or exc_got.split(':')[1:] == exc_want.split(':')[1:]\n    # print('exc_want",
+      'a wrong exception type passes when the messages agree')
